@@ -24,6 +24,7 @@ type GenCfg struct {
 	RepeatPos   bool // positional parameter lists may repeat a type (C06 only)
 	Defaults    bool // some options given as NewFunc defaults
 	Distractors bool
+	MultiHeavy  bool // planned worlds: most converters take two inputs
 }
 
 // SwarmCfg draws a configuration: every feature is on in roughly half the runs.
@@ -418,7 +419,7 @@ func GenPlanned(r *simrt.RNG, cfg GenCfg) World {
 		switch {
 		case cfg.Providers && r.Chance(1, 6):
 			nin = 0
-		case cfg.MultiIn && r.Chance(1, 3):
+		case cfg.MultiIn && (r.Chance(1, 3) || (cfg.MultiHeavy && r.Chance(1, 2))):
 			nin = 2
 		}
 		c.In = g.slots(nin, c.InForm, false)
@@ -441,7 +442,7 @@ func GenPlanned(r *simrt.RNG, cfg GenCfg) World {
 		satisfy(p.Label, r.Intn(4))
 	}
 	// noise
-	if cfg.Distractors || r.Chance(1, 2) {
+	if cfg.Distractors || (!cfg.MultiIn && r.Chance(1, 2)) {
 		nn := r.Intn(3)
 		for i := 0; i < nn; i++ {
 			c := g.party(1, 1, r.Bool())
